@@ -9,7 +9,7 @@ from lib import core
 from lib.core import cz, czl
 from harness import common, sess
 
-THEOREMS = ['C18_limiter_window', 'C18_limiter_liveness', 'C18_limiter_invariant', 'C18_throttle_decision', 'C18_rounding_effect', 'C18_nonvacuous']
+THEOREMS = ['C18_limiter_window', 'C18_limiter_liveness', 'C18_limiter_invariant', 'C18_throttle_decision', 'C18_exact_share', 'C18_nonvacuous']
 IMPORTS = ['AV.Model.Base', 'AV.Model.Limiter']
 
 
@@ -164,7 +164,7 @@ def oracle_throttle(period, sample, deny, t0, ops, out):
     for op in ops:
         if op[0] == 'a':
             tot = non + thr
-            cond = tot >= sample and tot > 0 and round2_exact(Fraction(thr, tot) * 100)[0] > deny
+            cond = tot >= sample and tot > 0 and Fraction(thr, tot) * 100 > deny          # the property: MORE than deny_request_at percent, exactly
             if k < len(out) and out[k] == 2:
                 return f'allow_request raised with {thr} throttled of {tot} responses (sample_size {sample})|finding:throttle-zero-sample-size' if sample <= 0 and tot == 0 else 'allow_request raised'
             if k >= len(out):
@@ -331,7 +331,7 @@ def oracle_session_throttle(obs, sample, deny):
         seen = [st for tr_, st in obs['responses'] if tr_ < tw]
         if seen and len(seen) >= sample:
             pct = Fraction(sum(1 for st in seen if st in (0x58, 0x14)), len(seen)) * 100
-            if round2_exact(pct)[0] > deny:
+            if pct > deny:
                 return (f'submit_sm number {i + 1} was written at t={tw:.3f} although {len(seen)} responses had been handled before ({float(pct):.2f}% throttled; '
                         f'sample_size {float(sample)}, deny_request_at {float(deny)}%)')
     return None
@@ -493,7 +493,7 @@ def run(ctx):
             seen = [st for _t, st in obs['responses'][:k]]
             if not seen or len(seen) < sample:
                 return False
-            return round2_exact(Fraction(sum(1 for st in seen if st in (0x58, 0x14)), len(seen)) * 100)[0] > deny
+            return Fraction(sum(1 for st in seen if st in (0x58, 0x14)), len(seen)) * 100 > deny
         if thr_at and not any(cond_after(k) for k in range(1, len(obs['responses']) + 1)) and len(obs['writes']) != n_msgs:
             ctx.violation(f'{len(obs["writes"])} of {n_msgs} messages were sent although the denial condition never held '
                           f'({len(obs["responses"])} responses handled, sample_size {sample}, deny_request_at {deny}%)', rp)
